@@ -25,7 +25,7 @@ ASSUMPTIONS = ['slice-level operators are decided by C10-C13, C16 (here they ser
 CONFIGS = [
     {'npts': [6, 8, 7, 6], 'start': 'flux_surface', 'iota': 0.0, 'mn': [2, 1]},
     {'npts': [6, 8, 7, 6], 'start': 'v_parallel', 'iota': 0.8, 'mn': [3, -2]},
-    {'npts': [6, 8, 7, 6], 'start': 'poloidal', 'iota': 'profile', 'mn': [2, 1]},
+    {'npts': [6, 8, 7, 6], 'start': 'poloidal', 'iota': 'profile', 'mn': [2, 1], 'deg': [3, 3, 4, 2]},     # z and v with their own spline degree (Spline2D needs theta and r both cubic-uniform or both not)
     {'npts': [7, 5, 8, 7], 'start': 'v_parallel', 'iota': 0.8, 'mn': [2, 1]},
 ]
 TOL = 1e-13
@@ -47,7 +47,7 @@ def cases(tier, seed):
             if g == [1, 1]:
                 continue
             out.append({'kind': 'pipeline', 'cfg': cfg, 'grid': g, 'cost': 10 * g[0] * g[1]})
-    dcfgs = [{'npts': [6, 8, 7, 6], 'iota': 0.0, 'steps': 1, 'save': 5}, {'npts': [6, 8, 7, 6], 'iota': 0.8, 'steps': 2, 'save': 1}]
+    dcfgs = [{'npts': [6, 8, 7, 6], 'iota': 0.0, 'steps': 1, 'save': 5}, {'npts': [6, 8, 7, 6], 'iota': 0.8, 'steps': 2, 'save': 1, 'deg': [3, 3, 4, 2]}]
     for cfg in dcfgs:
         gl = _grids(cfg['npts'], 6 if tier == 'quick' else 36)
         if tier == 'quick':
@@ -115,7 +115,7 @@ def _pipeline(cfg, nprocs, stages='all'):
         viol = []
         iv = 0.8 if cfg['iota'] == 'profile' else cfg['iota']
         f, c, t = setupCylindricalGrid(layout=cfg['start'], npts=list(npts), comm=comm, allocateSaveMemory=True,
-                                       iotaVal=iv, eps=0.1, m=cfg['mn'][0], n=cfg['mn'][1], vMin=-6.1, **GEN)
+                                       iotaVal=iv, eps=0.1, m=cfg['mn'][0], n=cfg['mn'][1], vMin=-6.1, splineDegrees=list(cfg.get('deg', [3, 3, 3, 3])), **GEN)
         if cfg['iota'] == 'profile':
             c.iota = lambda rr=None: 0.8 * (1 + 0.05 * np.asarray(rr, dtype=float))
         eta = f.eta_grid
@@ -305,7 +305,7 @@ def _driver(cfg, grid, folder):
     import fullSimulation
     d = env.scratch_dir('c05')
     try:
-        sim.write_constants(os.path.join(d, 'c.json'), npts=cfg['npts'], dt=2, iotaVal=cfg['iota'], eps=1e-2, m=2, n=1, vMin=-6.1, **GEN)
+        sim.write_constants(os.path.join(d, 'c.json'), npts=cfg['npts'], dt=2, iotaVal=cfg['iota'], eps=1e-2, m=2, n=1, vMin=-6.1, splineDegrees=list(cfg.get('deg', [3, 3, 3, 3])), **GEN)
         tend = 2 * cfg['steps']
 
         def fn(r):
